@@ -65,6 +65,19 @@ def run_case(spec, ctx):
     outcome = src['spec'].get('outcome', 'optimal')
     sols = {}
     detail = []
+    if 'grb' in names and 'I' in cls and src['spec'].get('spell', 0) % 6 == 0:
+        # a solve with search-limiting parameters first: they belong to that call only and must
+        # not influence the solves that follow (in this case or in later ones)
+        try:
+            from rsome import grb_solver as _g
+            import warnings as _w
+            with _w.catch_warnings():
+                _w.simplefilter('ignore')
+                _g.solve(f, display=False, params={'SolutionLimit': 1, 'MIPGap': 0.5,
+                                                   'TimeLimit': 30, 'Threads': 1})
+            ctx.count('limited_param_solves')
+        except Exception:
+            pass
     for s in names:
         try:
             sol = C.solve_formula(f, s)
